@@ -16,7 +16,7 @@ from . import mcmc
 from ..report import AnalysisError
 from ..term import Resolver, pmatch, abstract
 
-FLOORS = {"rows-stored-with-own-probability": 10, "columns-commit-together": 4, "slice-form": 9, "no-squeeze": 9, "parallel-arrays": 1, "interval-cut": 1,
+FLOORS = {"subset-selection": 1, "rows-stored-with-own-probability": 10, "columns-commit-together": 4, "slice-form": 9, "no-squeeze": 9, "parallel-arrays": 1, "interval-cut": 1,
           "none-value": 1, "marginal-passthrough": 1}
 GETTER_CLASSES = ("MetropolisChain", "HamiltonianChain", "EnsembleSampler")
 GETTERS = ("get_parameter", "get_probabilities", "get_sample")
@@ -275,6 +275,41 @@ def _parallel(prog, c, fn):
     out.append(struct_ob("parallel-arrays", qual(c, fn), ok,
                          f"sample and probs must undergo the same row selections in the same order; sample: {ns}; probs: {np_}; {problems}",
                          rel, fn.lineno, slots={"sample_ops": ns, "probs_ops": np_}))
+    # every selection is a selection of *distinct* rows (a subset of the fraction, never a resampling of it)
+    bad_sel = []
+    for t in [o[1] for o in ns if o[0] == "idx"]:
+        if ":" in t and not t.startswith("sorted(") and "(" not in t.split(":")[0][:0]:
+            node = None
+            try:
+                node = ast.parse(f"x[{t}]", mode="eval").body.slice
+            except SyntaxError:
+                pass
+            if isinstance(node, ast.Slice):
+                continue
+        try:
+            tn = ast.parse(t, mode="eval").body
+        except SyntaxError:
+            bad_sel.append((t, "not understood"))
+            continue
+        if isinstance(tn, ast.Call) and U(tn.func) == "sorted" and len(tn.args) == 1:
+            tn = tn.args[0]
+        distinct = any(pmatch(tn, pt) is not None for pt in (
+            "_p.argsort()", "argsort(_p)", "permutation(_n)[_a:]", "permutation(_n)[:_a]", "_r.permutation(_n)[_a:]", "_r.permutation(_n)[:_a]",
+            "choice(_n, size=_k, replace=False)", "choice(_n, _k, False)", "choice(_n, _k, replace=False)", "_r.choice(_n, size=_k, replace=False)",
+            "_r.choice(_n, _k, replace=False)", "arange(_n)", "arange(_a, _n)", "sample(range(_n), _k)"))
+        if distinct or isinstance(tn, ast.Compare):
+            continue
+        resamples = any(pmatch(tn, pt) is not None for pt in (
+            "choice(_n, size=_k)", "choice(_n, _k)", "_r.choice(_n, size=_k)", "_r.choice(_n, _k)", "randint(_a, _n, _k)", "randint(_n, size=_k)",
+            "_r.integers(_a, _n, _k)", "_r.integers(_n, size=_k)", "choice(_n, size=_k, replace=True)"))
+        bad_sel.append((t, "draws indices WITH replacement: rows repeat and as many rows of the fraction are dropped" if resamples
+                        else "not a recognised selection of distinct rows"))
+    definite = [b_ for b_ in bad_sel if "WITH replacement" in b_[1]]
+    if bad_sel and not definite:
+        raise AnalysisError(f"subset-selection: row selection `{bad_sel[0][0][:120]}` in {qual(c, fn)} is {bad_sel[0][1]}")
+    out.append(struct_ob("subset-selection", qual(c, fn), not definite,
+                         f"the rows returned must be a subset of the requested fraction: `{definite[0][0][:160]}` {definite[0][1]}" if definite else "",
+                         rel, fn.lineno, slots={"selections": [o[1] for o in ns if o[0] == "idx"]}))
     # the cut: ascending argsort of probs, then keep [cutoff:], cutoff = int(size * (1 - interval))
     idxs = [o[1] for o in ns if o[0] == "idx"]
     okc, why = False, ""
